@@ -43,9 +43,15 @@ type decoded struct {
 	consumed int
 }
 
+// eofWithData makes the sources of decodeLow/decodeStream hand over their last
+// bytes together with io.EOF (which io.Reader allows); checkDecode runs every
+// case both ways.
+var eofWithData bool
+
 // decodeLow runs ws.ReadHeader over b served with the chunk plan.
 func decodeLow(b []byte, sizes []int) decoded {
 	src := tx.NewSrc(b, sizes)
+	src.EOFWithData = eofWithData
 	h, err := ws.ReadHeader(src)
 	return decoded{err, toRef(h), src.Pos}
 }
@@ -53,6 +59,7 @@ func decodeLow(b []byte, sizes []int) decoded {
 // decodeStream runs the decoder inside a fresh wsutil.Reader.
 func decodeStream(b []byte, sizes []int) decoded {
 	src := tx.NewSrc(b, sizes)
+	src.EOFWithData = eofWithData
 	rd := &wsutil.Reader{Source: src, SkipHeaderCheck: true}
 	h, err := rd.NextFrame()
 	return decoded{err, toRef(h), src.Pos}
@@ -65,8 +72,23 @@ type caseDesc struct {
 }
 
 // checkDecode is the decode-direction oracle. It returns a description of
-// the violation or "".
+// the violation or "". Every case is run with the end of stream reported in a
+// separate read and together with the last bytes.
 func checkDecode(b []byte, sizes []int) string {
+	defer func() { eofWithData = false }()
+	for _, e := range []bool{false, true} {
+		eofWithData = e
+		if msg := checkDecodeOnce(b, sizes); msg != "" {
+			if e {
+				msg += " (source returns its last bytes together with io.EOF)"
+			}
+			return msg
+		}
+	}
+	return ""
+}
+
+func checkDecodeOnce(b []byte, sizes []int) string {
 	v, want, n := ref.DecodeHeader(b)
 	lo := decodeLow(b, sizes)
 	st := decodeStream(b, sizes)
